@@ -102,7 +102,8 @@ def main():
     finally:
         if other:
             sh("git -C %s apply %s/%s/patch.diff" % (wt, wt, other))
-    subprocess.run("rm -rf /verif/harness/bin/*-alt-* /verif/harness/go.alt-* /verif/out/*-alt-*", shell=True)
+    base = os.path.basename(wt.rstrip("/"))   # (only this worktree's scratch: other seeds may be processed concurrently)
+    subprocess.run("rm -rf /verif/harness/bin/*-alt-%s* /verif/harness/go.alt-%s* /verif/out/*-alt-%s*" % (base, base, base), shell=True)
     return 0
 
 
